@@ -25,8 +25,9 @@ type c18Case struct {
 	V        string `json:"version_value"`
 	IsString bool   `json:"is_string"`
 	Absent   bool   `json:"absent"`
-	Binary   bool   `json:"binary"`    // through a binary linked with -X main.version
-	LdPrefix string `json:"ld_prefix"` // "v" when the linker value carries the v prefix
+	Binary   bool   `json:"binary"`             // through a binary linked with -X main.version
+	LdPrefix string `json:"ld_prefix"`          // "v" when the linker value carries the v prefix
+	LdExtra  string `json:"ld_extra,omitempty"` // "dirty" / "clean": the binary is also linked with isGitDirty, commit, date, builtBy as release builds are
 }
 
 func c18Observe(r sut.Result) (string, string) {
@@ -75,7 +76,11 @@ func c18Eval(t tb, dir string, c c18Case) {
 	}
 	var r sut.Result
 	if c.Binary {
-		bin, err := sut.BuildBinary(ev.RepoDir(), filepath.Join(ev.ScratchDir(), "bin"), c.LdPrefix+c.B)
+		ldv := c.LdPrefix + c.B
+		if c.LdExtra != "" {
+			ldv += "|" + c.LdExtra
+		}
+		bin, err := sut.BuildBinary(ev.RepoDir(), filepath.Join(ev.ScratchDir(), "bin"), ldv)
 		if err != nil {
 			t.Fatalf("INFRA build binary: %v", err)
 		}
@@ -258,17 +263,18 @@ func TestC18(t *testing.T) {
 	})
 
 	// (4) through real binaries linked with -X main.version=<B> (covers main.go: v-prefix stripping)
-	type ld struct{ b, prefix string }
-	lds := []ld{{"0.4.2", "v"}, {"1.3.0", "v"}, {"2.0.7-rc.1", "v"}, {"0.0.0", ""}, {"3.1.0+build5", "v"}, {"dev-main", ""}}
+	type ld struct{ b, prefix, extra string }
+	lds := []ld{{"0.4.2", "v", ""}, {"1.3.0", "v", "dirty"}, {"2.0.7-rc.1", "v", "clean"}, {"0.0.0", "", ""}, {"3.1.0+build5", "v", ""}, {"dev-main", "", "dirty"},
+		{"3.1.0+build5", "v", "dirty"}, {"0.3.1+exp.sha.5114f85", "", "dirty"}, {"1.3.0-rc.1", "", "dirty"}, {"1.3.0+b", "v", "clean"}}
 	if ev.Thorough() {
 		for i, b := range grid {
 			p := "v"
 			if i%5 == 0 {
 				p = ""
 			}
-			lds = append(lds, ld{b, p})
+			lds = append(lds, ld{b, p, []string{"", "dirty", "clean"}[i%3]})
 		}
-		lds = append(lds, ld{"devel", ""}, ld{"vdev", ""}, ld{"v", ""})
+		lds = append(lds, ld{"devel", "", ""}, ld{"vdev", "", ""}, ld{"v", "", "dirty"})
 	}
 	for i, l := range lds {
 		if !ev.Mine(i) {
@@ -277,11 +283,11 @@ func TestC18(t *testing.T) {
 		vs := []string{l.b, "0.4.0", "0.3.9", "1.0.0", "1.3.5", "1.4.0", "2.0.0", "3.0.0-x", "3.1.9", "3.2.0"}
 		for _, v := range vs {
 			c := strCase(l.b, v)
-			c.Binary, c.LdPrefix = true, l.prefix
+			c.Binary, c.LdPrefix, c.LdExtra = true, l.prefix, l.extra
 			c18Eval(t, dir, c)
 		}
-		c18Eval(t, dir, c18Case{B: l.b, Absent: true, Binary: true, LdPrefix: l.prefix})
-		c18Eval(t, dir, c18Case{B: l.b, VYaml: `"v1.0.0"`, V: "v1.0.0", IsString: true, Binary: true, LdPrefix: l.prefix})
+		c18Eval(t, dir, c18Case{B: l.b, Absent: true, Binary: true, LdPrefix: l.prefix, LdExtra: l.extra})
+		c18Eval(t, dir, c18Case{B: l.b, VYaml: `"v1.0.0"`, V: "v1.0.0", IsString: true, Binary: true, LdPrefix: l.prefix, LdExtra: l.extra})
 	}
 	col.Complete()
 }
